@@ -712,3 +712,135 @@ func TestC18Slices(t *testing.T) {
 	st.Exhaustive["C18.typed-slices"] = fmt.Sprintf("%d typed-slice fields x %d^3 slice parameter triples (window and 64-bit boundary values) + indices: %d expressions, struct form vs generic form", len(fields), len(vals), n)
 	st.mu.Unlock()
 }
+
+// ---------------------------------------------------------------------------
+// C18 shape grid on a rich hand-written struct document
+
+type rMember struct {
+	Name string
+	Age  float64
+	Tags []string
+	Ptr  *rMember
+}
+type rGroup struct {
+	Title   string
+	Members []*rMember
+	Items   []rMember
+	Vals    [][]float64
+	Sub     *rGroup
+	Flag    bool
+}
+type rDoc struct {
+	Groups    []rGroup
+	GroupPtrs []*rGroup
+	One       rGroup
+	Nil       *rGroup
+	Names     []string
+	Nums      []float64
+}
+
+func richDoc() *rDoc {
+	m1 := &rMember{Name: "x", Age: 1, Tags: []string{"t1", "t2"}}
+	m2 := &rMember{Name: "y", Age: 2, Tags: []string{}, Ptr: m1}
+	m3 := &rMember{Name: "", Age: 0, Tags: []string{"t3"}}
+	g1 := rGroup{Title: "g1", Members: []*rMember{m1, nil, m2, nil}, Items: []rMember{*m1, *m3}, Vals: [][]float64{{1, 2}, {}, {3}}, Flag: true}
+	g2 := rGroup{Title: "g2", Members: []*rMember{}, Items: []rMember{}, Vals: [][]float64{}, Sub: &g1}
+	g3 := rGroup{Title: "", Members: []*rMember{nil, m3}, Items: []rMember{*m2}, Vals: [][]float64{{4}}, Sub: &g2, Flag: true}
+	return &rDoc{Groups: []rGroup{g1, g2, g3}, GroupPtrs: []*rGroup{&g3, nil, &g1}, One: g1, Names: []string{"b", "", "a"}, Nums: []float64{2, 0, 1}}
+}
+
+func init() { predicates["richequiv"] = predRichEquiv }
+
+func predRichEquiv(c Case) (r Result) {
+	expr := c.expr()
+	doc := richDoc()
+	twin, err := normalise(doc)
+	if err != nil {
+		r.Discard = "HARNESS:normalise"
+		r.Violation = err.Error()
+		return
+	}
+	so, to := libSearch(expr, doc), libSearch(expr, twin)
+	if so.Panic != nil {
+		r.Nontrivial = true
+		r.Violation = "Search panicked on struct/pointer/typed-slice data"
+		r.Got = showOut(so)
+		return
+	}
+	if to.Panic != nil {
+		r.Discard = "generic-form-panics"
+		return
+	}
+	if (so.Err != nil) != (to.Err != nil) {
+		r.Violation = "struct form and generic JSON form disagree about failure"
+		r.Expected, r.Got = "generic: "+showOut(to), "struct: "+showOut(so)
+		return
+	}
+	if so.Err != nil {
+		r.class("both-error")
+		return
+	}
+	sn, err := normalise(so.Val)
+	if err != nil || !reflect.DeepEqual(sn, to.Val) {
+		r.Violation = "navigation on struct/pointer/typed-slice data differs from the equivalent generic JSON document"
+		r.Expected, r.Got = "generic: "+show(to.Val), "struct: "+show(sn)
+		return
+	}
+	r.Nontrivial = to.Val != nil
+	return
+}
+
+var richLHS = []string{"Groups", "GroupPtrs", "One.Members", "One.Items", "Names", "Nums", "One.Vals", "Nil", "One.Sub", "Groups[2].Sub", "Groups[0].Members", "[Groups, GroupPtrs]", "Groups[*].Members", "GroupPtrs[*].Items", "@", "One"}
+var richOps = []string{"", "[*]", "[]", "[?@]", "[?Name]", "[?Flag]", "[?Members]", "[?!Sub]", "[?Title && Flag]", "[?Sub || Flag]", "[1:]", "[::-1]", "[*][*]", "[][]", "[*].Members[]", "[].Members", "[*].Members[*]", "[].Items[]", "[*].Vals[]", "[].Vals[][]", "[0]", "[-1]", "[1]"}
+var richRHS = []string{"", ".Name", ".Title", ".Members", ".Members[0]", ".Members[1]", ".Members[0].Name", ".[Name]", ".{n: Name, t: Title}", ".Tags[0]", ".Members[].Name", ".Sub.Title", ".Sub.Sub.Members[]", ".Ptr.Name", ".[Members[]]", ".{m: Members[*].Name}", ".length(Members)", ".Items[*].Tags[]", ".[Ptr, Name]", ".Ptr.[Name]"}
+var richEnd = []string{"", " | length(@)", " | [0]", " | [*].[Name]", " | [*].{n: Name}", " | [?@]", " | [-1].Name", " | [][]"}
+
+// TestC18Rich: navigational shape grid on a rich struct document (pointers with
+// nils inside typed slices reached through projections, nested typed slices,
+// pointer chains): struct form == generic JSON form.
+func TestC18Rich(t *testing.T) {
+	shard, nshards := envInt("VERIF_SHARD", 0), envInt("VERIF_NSHARDS", 1)
+	n, k := 0, 0
+	twinDoc, err := normalise(richDoc())
+	if err != nil {
+		t.Fatalf("HARNESS-ERROR: %v", err)
+	}
+	for _, l := range richLHS {
+		for _, op := range richOps {
+			for _, rh := range richRHS {
+				for _, e := range richEnd {
+					k++
+					if k%nshards != shard {
+						continue
+					}
+					expr := l + op + rh + e
+					if strings.HasPrefix(expr, "@.") || strings.HasPrefix(expr, "@[") {
+						expr = expr[1:]
+						if strings.HasPrefix(expr, ".") {
+							expr = expr[1:]
+						}
+					}
+					if strings.HasSuffix(e, "length(@)") {
+						// length() is in the property's domain for slices and strings only
+						base := strings.TrimSuffix(expr, e)
+						if base == "" {
+							continue
+						}
+						o := libSearch(base, twinDoc)
+						switch o.Val.(type) {
+						case []interface{}, string:
+						default:
+							continue
+						}
+					}
+					run(t, Case{Property: "C18", Kind: "richequiv", Expr: expr})
+					n++
+				}
+			}
+		}
+	}
+	st := statsFor("C18")
+	st.mu.Lock()
+	st.Exhaustive["C18.rich-grid"] = fmt.Sprintf("%d left-hand sides x %d navigation/projection chains x %d right-hand sides x %d terminators on a rich struct document (shard %d/%d: %d expressions), struct form vs generic form", len(richLHS), len(richOps), len(richRHS), len(richEnd), shard, nshards, n)
+	st.mu.Unlock()
+}
